@@ -23,6 +23,7 @@ pub enum REv {
     Data(Vec<u8>),
     Interrupted,
     Error,
+    TimedOut,
     Eof,
 }
 #[derive(Clone, Debug)]
@@ -37,6 +38,7 @@ pub fn parse_revs(toks: &[&str]) -> Option<VecDeque<REv>> {
         .map(|t| match *t {
             "i" => Some(REv::Interrupted),
             "e" => Some(REv::Error),
+            "t" => Some(REv::TimedOut),
             "z" => Some(REv::Eof),
             _ => t.strip_prefix("d:").and_then(parse_hex).map(REv::Data),
         })
@@ -85,6 +87,7 @@ impl Read for ScriptReader {
                 None | Some(REv::Eof) => break Ok(0),
                 Some(REv::Interrupted) => break Err(io::Error::new(io::ErrorKind::Interrupted, "scripted interrupt")),
                 Some(REv::Error) => break Err(io::Error::new(io::ErrorKind::Other, "scripted error")),
+                Some(REv::TimedOut) => break Err(io::Error::new(io::ErrorKind::TimedOut, "scripted timeout")),
                 Some(REv::Data(d)) => {
                     if d.is_empty() {
                         continue;
